@@ -761,6 +761,8 @@ class MultiStream(Stream):
         data = self.imol.data
         other_data = other.imol.data
         multiphase = other_data.ndim == 2
+        if multiphase and other.phases != self.phases: # Rows are paired by position
+            raise ValueError('other stream must have the same phases defined to copy flow')
         if exclude:
             data = self.imol.data
             other_data = other.imol.data
